@@ -246,8 +246,8 @@ PROPS["C13"] = dict(
                             bound="BOUNDED STAND-IN, native run: DEMutation y in {1,2} x f in {0,0.5,2} x population sizes 0..3(2y+1) x dimension 1..3; DE binomial/exponential crossover x pc in {0,0.5,1} x 0..3 pairs x 32 seeds"),
                             "c13_native_crossover_genes": dict(anchor="crossover components",
                             bound="BOUNDED STAND-IN, native run: Uniform/1-,2-,3-point/Arithmetic crossover x insert-one/both x 64 seeds on fixed parents; CycleCrossover on all 576 pairs of length-4 permutations"),
-                            "c13_native_kernels": dict(anchor="translocate_slice / cycle_crossover / arithmetic_crossover (kernels)",
-                            bound="BOUNDED STAND-IN, native exhaustive enumeration: translocate (both implementations) all valid cases at lengths 1..6; cycle crossover all pairs of permutations of length 1..5; arithmetic formula and convexity on a 15 x 15 x 10 value grid incl. subnormals"),
+                            "c13_native_kernels": dict(anchor="circular_swap / translocate_slice / cycle_crossover / arithmetic_crossover (kernels)",
+                            bound="BOUNDED STAND-IN, native exhaustive enumeration: circular swap (both implementations) every tuple of 2..4 distinct indices on lengths 2..6; translocate (both implementations) all valid cases at lengths 1..6; cycle crossover all pairs of permutations of length 1..5; arithmetic formula and convexity on a 15 x 15 x 10 value grid incl. subnormals"),
                             "c13_native_value_mutations": dict(anchor="mutation components (real, bit)",
                             bound="BOUNDED STAND-IN, native run: Normal/Uniform/PartialRandomSpread and BitFlip/PartialRandomBitstring x rm in {0, 0.5, 1} x dimension 1..4 x population size 0..3 x 32 seeds")})],
     min_obligations={"quick": 15, "thorough": 15},
